@@ -319,6 +319,13 @@ Section Inv.
       destruct (get_repo st1 r) as [rp|] eqn:ER; [|exact HI1].
       set (de := {| d_media := media; d_digest := hash content; d_size := blen content; d_artifact := [] |}).
       assert (Hstore : Inv (fst (
+        if immutable_tags cfg
+           && match alookup (hash content) (manifests rp) with
+              | Some cur => negb (beqb (b_media cur) media)
+              | None => false
+              end
+        then (st1, Err (E DENIED (s "mismatched media type")))
+        else
         match check_descriptor de (Some content) with
         | Some _ => (st1, Err (e_plain (s "invalid descriptor")))
         | None =>
@@ -330,7 +337,8 @@ Section Inv.
                    match t with [] => rp1 | _ => rp_set_tag t de rp1 end), Ok (RDesc de))
             end
         end : state * result))).
-      { destruct (check_descriptor de (Some content)); [exact HI1|].
+      { destruct (immutable_tags cfg && _); [exact HI1|].
+        destruct (check_descriptor de (Some content)); [exact HI1|].
         destruct (check_manifest rp media content) as [subj|] eqn:ECM; [|exact HI1]. cbn.
         apply inv_upd_repo; [exact HI1|]. intros rp0 _ Hok.
         apply check_manifest_ok in ECM as [Hp Hs].
